@@ -1,4 +1,5 @@
 import Mitx.Lemmas.Optimal
+import Mitx.Lemmas.Grouping
 import Mathlib.Algebra.BigOperators.Fin
 /-! # C05 — ListGrader gives the best consistent assignment and reports it per input box
 
@@ -149,5 +150,55 @@ theorem wrong_count_refused {cfg : LCfg} {sub : ℕ → α → GInput → M SubR
   simp only [hgr, List.isEmpty_nil, Bool.not_true, Bool.false_eq_true, ↓reduceIte, this, bind, Except.bind, throw, throwThe,
     MonadExceptOf.throw]
   exact ⟨_, rfl⟩
+
+/-! ## Grouped inputs: every result is reported at the position of the input it grades -/
+
+/-- `create_grouping_map` accepts exactly the groupings that partition the input positions: in an accepted map every
+    position `0 … N-1` occurs in exactly one group, and group `g` holds precisely the positions numbered `g + 1`. -/
+theorem grouping_is_partition {grouping : List ℕ} {gs : List (List ℕ)} (h : createGroupingMap grouping = some gs) :
+    ValidMap gs grouping.length ∧ ∀ g i, g < gs.length → (i ∈ gs.getD g [] ↔ grouping[i]? = some (g + 1)) :=
+  createGroupingMap_valid h
+
+/-- `groupify` hands group `g` exactly the submitted inputs at that group's positions, in order -/
+theorem grouped_input_is_group (gs : List (List ℕ)) (student : List String) (g : ℕ) (hg : g < gs.length) :
+    (groupify (some gs) student)[g]? = some (match gs[g] with
+      | [i] => GInput.one (student.getD i "")
+      | grp => GInput.many (grp.map (fun i => student.getD i ""))) :=
+  groupify_group gs student g hg
+
+/-- **Results are reported per input box, also under grouping.** After a successful `perform_check` with a grouping,
+    there is one entry per submitted input, and the entry at the position of the `j`-th input of group `g` is the `j`-th
+    result that the subgrader returned for group `g` (for every group and member; ordered and unordered alike), provided
+    the subgraders return results of the shape of their input (`Compat`: short form for one input, one entry per input
+    for a group — the C01 shape theorem for item and list graders). -/
+theorem grouped_entry_position {cfg : LCfg} {sub : ℕ → α → GInput → M SubRes} {answers : List α} {student : List String}
+    {o : LOut} {gs : List (List ℕ)} (hgr : cfg.grouping ≠ []) (hmap : createGroupingMap cfg.grouping = some gs)
+    (h : performCheck cfg sub answers student = .ok o) :
+    ∃ inputList, o.entries = ungroupify (some gs) inputList ∧
+      (List.Forall₂ Compat gs inputList →
+        o.entries.length = student.length ∧
+        ∀ g j (hg : g < gs.length) (hg' : g < inputList.length) (hj : j < gs[g].length) (hj' : j < inputList[g].flat.length),
+          o.entries[gs[g][j]]? = some (some (inputList[g].flat[j]))) := by
+  obtain ⟨hlen, il, ho, _⟩ := performCheck_inv h
+  have hne : cfg.grouping.isEmpty = false := by
+    cases hc : cfg.grouping with
+    | nil => exact absurd hc hgr
+    | cons _ _ => rfl
+  simp only [hne, Bool.false_eq_true, ↓reduceIte, hmap] at hlen ho
+  refine ⟨il, by rw [ho], ?_⟩
+  intro hs
+  have hv := (createGroupingMap_valid hmap).1
+  have hN : 0 < cfg.grouping.length := by
+    cases hc : cfg.grouping with
+    | nil => exact absurd hc hgr
+    | cons _ _ => simp
+  obtain ⟨h1, h2⟩ := ungroupify_position hv hN hs
+  rw [ho]
+  exact ⟨by rw [h1, hlen], h2⟩
+
+/-- non-vacuity: the documentation's interleaved grouping `[1, 2, 1, 2]` is accepted, is a partition, and the entry for the
+    second input of group 1 (position 2) is the second nested result of group 1 -/
+example : createGroupingMap [1, 2, 1, 2] = some [[0, 2], [1, 3]] := by decide
+example : createGroupingMap [1, 3, 1] = none := by decide
 
 end C05
